@@ -1053,9 +1053,19 @@ func (in *Interp) doCall(st *State, fi int, ci *CallInfo, instr ssa.Instruction,
 	if model == nil {
 		for _, a := range ci.Args {
 			if a != nil && a.Strip(false).Kind == KClosure {
-				for _, cell := range a.Strip(false).Elems {
+				cl := a.Strip(false)
+				for k, cell := range cl.Elems {
+					if !closureMayWrite(cl.Fn, k) {
+						continue // the callee can only read this captured variable
+					}
 					delete(st.cells, cell)
-					st.cells[cell] = in.newSym(&Sym{Kind: KLoad, X: cell, Typ: nil})
+					var t types.Type
+					if cell.Typ != nil {
+						if pt, ok := cell.Typ.Underlying().(*types.Pointer); ok {
+							t = pt.Elem()
+						}
+					}
+					st.cells[cell] = in.newSym(&Sym{Kind: KLoad, X: cell, Typ: t})
 				}
 			}
 		}
@@ -1240,4 +1250,42 @@ func (st *State) SliceElems(s *Sym) []*Sym {
 		out = append(out, v)
 	}
 	return out
+}
+
+// closureMayWrite reports whether fn (or a closure nested in it) may store through
+// its k-th free variable, or lets its address escape (anything but a plain load).
+func closureMayWrite(fn *ssa.Function, k int) bool {
+	if fn == nil || k >= len(fn.FreeVars) {
+		return true
+	}
+	fv := fn.FreeVars[k]
+	refs := fv.Referrers()
+	if refs == nil {
+		return true
+	}
+	for _, r := range *refs {
+		switch r := r.(type) {
+		case *ssa.UnOp:
+			if r.Op != token.MUL {
+				return true
+			}
+		case *ssa.DebugRef:
+		case *ssa.FieldAddr, *ssa.IndexAddr:
+			// address arithmetic on the captured value's own storage: may be written through
+			return true
+		case *ssa.MakeClosure:
+			inner, ok := r.Fn.(*ssa.Function)
+			if !ok {
+				return true
+			}
+			for j, b := range r.Bindings {
+				if b == ssa.Value(fv) && closureMayWrite(inner, j) {
+					return true
+				}
+			}
+		default:
+			return true
+		}
+	}
+	return false
 }
